@@ -141,7 +141,11 @@ class P:
             self.eat()
             m = re.match(r"([\d_]+)(?:\.[\d_]*)?([a-z]\w*)?$", v)
             if "." in v or (m.group(2) or "").startswith("f"):
-                raise Fail(f"float literal {v} outside the translated subset")
+                fm = re.match(r"([\d_]+)(?:\.([\d_]*))?(f32|f64)?$", v)
+                frac = (fm.group(2) or "").replace("_", "").strip("0") if fm else "x"
+                if not fm or frac != "" or fm.group(3) == "f32":
+                    raise Fail(f"float literal {v} outside the translated subset (only f64 literals with an integral value)")
+                return ("int", int(fm.group(1).replace("_", "")), "f64")
             return ("int", int(m.group(1).replace("_", "")), m.group(2))
         if k == "str":
             self.eat()
@@ -335,9 +339,12 @@ class P:
             b = None
             if self.peek() == "else":
                 self.eat()
-                self.eat("{")
-                b = self.stmts()
-                self.eat("}")
+                if self.peek() == "if":
+                    b = [self.stmt()]          # else if ...: a block holding one `if` statement
+                else:
+                    self.eat("{")
+                    b = self.stmts()
+                    self.eat("}")
             return ("if", c, a, b)
         e = self.expr()
         if self.peek() in ("/", "%", "+", "-", "*") and self.peek(1) == "=":
@@ -419,7 +426,7 @@ class Gen:
 
     def __init__(self, struct, fields, consts, ignore_calls, field_map=None):
         self.struct, self.fields, self.consts, self.ignore = struct, dict(fields), consts, ignore_calls
-        self.inline, self.inline_expr, self.default_of, self.enums = {}, {}, {}, {}
+        self.inline, self.inline_expr, self.default_of, self.enums, self.free_fns = {}, {}, {}, {}, {}
         self.field_map = field_map or {}
 
     def ftype(self, f):
@@ -448,6 +455,8 @@ class Gen:
         """returns (guards, term, type)"""
         k = e[0]
         if k == "int":
+            if e[2] == "f64":
+                return [], ("o.zero" if e[1] == 0 else "o.one" if e[1] == 1 else f"(o.ofNat {e[1]})"), "f64"
             return [], str(e[1]), e[2]
         if k == "var":
             n = e[1]
@@ -477,6 +486,8 @@ class Gen:
         if k == "cast":
             g, t, ty = self.expr(e[1], env)
             to = e[2]
+            if to == "f64" and self.width(ty) is not None:
+                return g, f"(o.ofNat {t})", "f64"        # integer to f64 (rounding is the instance's business)
             if to not in INT_T:
                 raise Fail(f"cast to {to} outside the translated subset")
             w0, w1 = self.width(ty), INT_T[to]
@@ -506,6 +517,11 @@ class Gen:
                 self.join_ty(ta, tb, op)
                 return g, f"({a} {lop} {b})", "bool"
             ty = self.join_ty(ta, tb, op)
+            if ty == "f64":
+                fop = {"+": "add", "-": "sub", "*": "mul", "/": "div"}.get(op)
+                if fop is None:
+                    raise Fail(f"operator {op} on f64")
+                return g, f"(o.{fop} {a} {b})", "f64"      # floating point never panics
             w = self.width(ty)
             if op == "+":
                 if w is not None:
@@ -538,6 +554,18 @@ class Gen:
             if name == "Duration::from_nanos" and len(args) == 1:
                 g, t, ty = self.expr(args[0], env)
                 return g, t, "Duration"
+            if name == "f64::from" and len(args) == 1:
+                g, t, ty = self.expr(args[0], env)
+                if self.width(ty) is None:
+                    raise Fail("f64::from on a non-integer")
+                return g, f"(o.ofNat {t})", "f64"
+            if name in self.free_fns and len(args) == len(self.free_fns[name][1]):
+                gs, ts = [], []
+                for a in args:
+                    g, t, ty = self.expr(a, env)
+                    gs += g
+                    ts.append(t)
+                return gs, f"({self.free_fns[name][0]} {' '.join(ts)})", self.free_fns[name][2]
             if name == "Some" and len(args) == 1:
                 g, t, ty = self.expr(args[0], env)
                 return g, f"(some {t})", ("opt", ty)
@@ -580,6 +608,11 @@ class Gen:
                 return self.expr(recv, env)
             if m == "as_secs" and not args and recv == ("field", ("var", "self"), "0") and "self.0.as_secs" in env:
                 return [], env["self.0.as_secs"][0], env["self.0.as_secs"][1]
+            if m in ("as_secs", "subsec_nanos") and not args:
+                g, t, ty = self.expr(recv, env)
+                if ty != "Duration":
+                    raise Fail(f"{m} on {ty}")
+                return (g, f"({t} / 1000000000)", "u64") if m == "as_secs" else (g, f"({t} % 1000000000)", "u32")
             if m == "as_nanos" and not args:
                 g, t, ty = self.expr(recv, env)
                 if ty != "Duration":
@@ -887,8 +920,26 @@ def field_type(t):
     return t
 
 
+def find_free_fn(src, fn):
+    m = re.search(r"(?:^|\n)(?:pub(?:\([^)]*\))?\s+)?fn\s+" + fn + r"\s*\(([^)]*)\)\s*(?:->\s*([^{]+?))?\s*\{", src)
+    if not m:
+        raise Fail(f"fn {fn} not found")
+    i, depth = m.end(), 1
+    while depth and i < len(src):
+        depth += {"{": 1, "}": -1}.get(src[i], 0)
+        i += 1
+    params = []
+    for p in m.group(1).split(","):
+        p = p.strip()
+        if not p:
+            continue
+        pm = re.match(r"(?:mut\s+)?(\w+)\s*:\s*(.+)$", p)
+        params.append((pm.group(1), pm.group(2).strip()))
+    return params, (m.group(2) or "()").strip(), src[m.end():i - 1]
+
+
 def translate_fn(src, impl, fn, lean_struct, fields, out_fields, consts, ignore=(), inline=(), inline_expr=(), default_of=None, enums=None,
-                 generics=""):
+                 generics="", free_fns=None):
     """fields: list of (rust key like 'self.capacity', lean field name, type). returns Lean source of the def"""
     params, ret, body = find_fn(src, impl, fn)
     g = Gen(impl, [], consts, set(ignore))
@@ -897,6 +948,7 @@ def translate_fn(src, impl, fn, lean_struct, fields, out_fields, consts, ignore=
     g.inline_expr = {m: find_fn(src, impl, m) for m in inline_expr}
     g.default_of = default_of or {}
     g.enums = enums or {}
+    g.free_fns = free_fns or {}
     env = {}
     lines = []
     for k, f, t in fields:
@@ -909,13 +961,16 @@ def translate_fn(src, impl, fn, lean_struct, fields, out_fields, consts, ignore=
         if t in INT_T or t in ("Instant", "Duration"):
             env[n] = (n, t)
             ps.append(f"({n} : Nat)")
+        elif t == "f64":
+            env[n] = (n, t)
+            ps.append(f"({n} : α)")
         elif t in g.enums:
             env[n] = (n, t)
             ps.append(f"({n} : {t})")
         else:
             raise Fail(f"{impl}::{fn}: parameter type {t} outside the translated subset")
     stmts = P(lex(body)).stmts()
-    retty = "Bool" if ret == "bool" else "Nat" if ret in INT_T else "Unit"
+    retty = "Bool" if ret == "bool" else "Nat" if ret in INT_T else "α" if ret == "f64" else "Unit"
     fall = (lambda env2, ind: g.ret("()", env2, ind)) if ret == "()" else (lambda env2, ind: (_ for _ in ()).throw(Fail(f"{impl}::{fn}: control reaches the end of a non-unit function")))
     code = g.block(stmts, env, "  ", fall)
     name = f"{lean_struct}.{camel(fn)}"
@@ -1076,7 +1131,42 @@ def main():
     text = "\n".join(o)
     if not os.path.exists(out) or open(out).read() != text:
         open(out, "w").write(text)
-    print("rs2lean: ok,", text.count("\ndef "), "definitions")
+    # ---- the estimator (f64 code, generic in the arithmetic `Estimator.Ops`): a second generated file
+    e = ["import IndicatifModel.Model.Estimator\n"
+         "/-! GENERATED by tools/rs2lean.py from src/state.rs — do not edit.\n"
+         "`Estimator::{record, reset, steps_per_second}` and `duration_to_secs`, generic in the arithmetic `Estimator.Ops α`: `f64` operations\n"
+         "become `o.add/sub/mul/div`, integer-to-float conversions `o.ofNat`, `estimator_weight` the opaque `o.w`; floating point never\n"
+         "panics, integer subtraction does (`none`). -/\n"
+         "set_option linter.unusedVariables false\nnamespace IndicatifModel.Generated\nopen IndicatifModel\n"]
+    params, ret, body = find_free_fn(stt, "duration_to_secs")
+    if params != [("d", "Duration")] or ret != "f64":
+        raise Fail(f"duration_to_secs has signature {params} -> {ret}")
+    g2 = Gen("free", [], {}, set())
+    st = P(lex(body)).stmts()
+    if len(st) != 1 or st[0][0] != "tail":
+        raise Fail("duration_to_secs is not a single expression")
+    gs, t, ty = g2.expr(st[0][1], {"d": ("d", "Duration")})
+    if gs or ty != "f64":
+        raise Fail("duration_to_secs: unexpected guards or type")
+    e.append(f"/-- `duration_to_secs(d: Duration) -> f64` (`d` in nanoseconds) -/\ndef durationToSecs {{α : Type}} (o : Estimator.Ops α) (d : Nat) : α :=\n  {t}\n")
+    params, ret, body = find_free_fn(stt, "estimator_weight")
+    if params != [("age", "f64")] or ret != "f64":
+        raise Fail(f"estimator_weight has signature {params} -> {ret}")
+    es = find_struct(stt, "Estimator")
+    if es != [("smoothed_steps_per_sec", "f64"), ("double_smoothed_steps_per_sec", "f64"), ("prev_steps", "u64"), ("prev_time", "Instant"), ("start_time", "Instant")]:
+        raise Fail(f"struct Estimator has fields {es}")
+    e.append("structure EstimatorS (α : Type) where\n" + "".join(f"  {f} : {'α' if t == 'f64' else 'Nat'}  -- {t}\n" for f, t in es))
+    ef = [("self." + f, f, t) for f, t in es]
+    free = {"duration_to_secs": ("durationToSecs o", [("d", "Duration")], "f64"), "estimator_weight": ("o.w", [("age", "f64")], "f64")}
+    kw2 = dict(generics="{α : Type} (o : Estimator.Ops α) ", free_fns=free)
+    for fn, extra in (("reset", {}), ("record", dict(inline=("reset",))), ("steps_per_second", {})):
+        e.append(translate_fn(stt, "Estimator", fn, "(EstimatorS α)", ef, None, {}, **kw2, **extra).replace("def (EstimatorS α).", "def EstimatorS."))
+    e.append("end IndicatifModel.Generated\n")
+    text2 = "\n".join(e)
+    out2 = os.path.join(os.path.dirname(out), "EstimatorFuns.lean")
+    if not os.path.exists(out2) or open(out2).read() != text2:
+        open(out2, "w").write(text2)
+    print("rs2lean: ok,", text.count("\ndef ") + text2.count("\ndef "), "definitions")
 
 
 if __name__ == "__main__":
